@@ -31,6 +31,9 @@ if HERE not in sys.path:
     sys.path.insert(0, HERE)
 
 
+NO_LOG_STUB = [False]  # queries whose subject is an error message run without the message stub
+
+
 def _install_crosshair_patches():
     import z3
     import crosshair.core as core
@@ -68,7 +71,8 @@ def _install_crosshair_patches():
         return res
 
     core.analyze_calltree = capturing_calltree
-    _install_log_format_stub()
+    if not NO_LOG_STUB[0]:
+        _install_log_format_stub()
     return stats, captured
 
 
@@ -204,6 +208,7 @@ def parse_counterexample(message: str, fn):
 def run_query(q):
     t0 = time.perf_counter()
     c0 = time.process_time()
+    NO_LOG_STUB[0] = bool((q.get("sel") or {}).get("no_log_stub"))
     stats, captured = _install_crosshair_patches()
     from crosshair.core_and_libs import analyze_function, run_checkables
     from crosshair.options import AnalysisOptionSet
